@@ -230,3 +230,10 @@ package analysis
 
 //@ func (CheckResult).ResolveBuiltinFn
 //@   modifies nothing
+
+// errorsOf(diagnostics): the number of error-severity entries - a name for what GetErrorsCount computes (its loop is
+// not verified against a recursive definition; the CLI contracts only need that the same number is used)
+//@ function errorsOf Int
+//@ func (CheckResult).GetErrorsCount
+//@   assumes [is-the-count] {C20} result == errorsOf(r.Diagnostics)
+//@   modifies nothing
